@@ -30,6 +30,9 @@ const API_CLASSES: [&str; 5] = [
 /// All C16 complaints of one run: wire/quiescent monitors + API clause.
 fn complaints(o: &Outcome) -> Vec<(String, String)> {
     let mut v = o.mon.complaints.clone();
+    if let crate::wire::Stop::Panicked(msg) = &o.stop {
+        v.push(("panic".into(), format!("turmoil-net panicked in round {}: {msg}", o.rounds)));
+    }
     for (c, d) in &o.hist.complaints {
         if API_CLASSES.contains(&c.as_str()) {
             v.push((c.clone(), d.clone()));
@@ -101,7 +104,7 @@ fn tcp_out(part: &str, scn: &Scn, minimise_it: bool) -> ScenarioOut {
         if !fails(&ex) {
             panic!("explicit replay of a failing C16 walk does not reproduce {class}: {}", scn.canon());
         }
-        let min = if minimise_it { minimise_with(&ex, &fails, 200) } else { ex.clone() };
+        let min = if minimise_it && crate::oracle::minimise_ticket() { minimise_with(&ex, &fails, 200) } else { ex.clone() };
         let o2 = run_scn(&min, ROUND_CAP);
         let detail2 = complaints(&o2)
             .into_iter()
